@@ -16,7 +16,7 @@ RULE = ("random (stated velocity, stated powder temperature, modifier | second m
         "explicit powder temperature; non-trivial when sensitivity is on and the query/second temperature differs "
         "from the stated one")
 MUST_OBSERVE = ["off_queries", "linear_queries", "calibrations", "calib_dv-_dT-", "calib_dv-_dT+", "calib_dv+_dT-",
-                "calib_dv+_dT+", "degenerate_rejected", "launches", "launch_powder_t_given", "launch_powder_t_default"]
+                "calib_dv+_dT+", "degenerate_rejected", "launches", "launch_powder_t_given", "launch_powder_t_default", "restated"]
 ASSUMPTIONS = ["temperatures converted to Celsius and velocities to m/s with exact affine/linear maps (C06 covers the library's)"]
 TU = ["Celsius", "Fahrenheit", "Kelvin", "Rankin"]
 VU = {"MPS": 1.0, "FPS": 0.3048, "KMH": 1 / 3.6, "MPH": 0.44704, "KT": 1852 / 3600}
@@ -143,6 +143,33 @@ def check_case(ctx, case):
         if not close(got0, v0, v0):
             ctx.violation("anchor", f"after calibration v(T0) = {got0!r} != stated {v0!r}", case)
         ctx.case(case, nontrivial=True)
+    elif kind == "restate":
+        m = case["modifier"]
+        ammo.get_velocity_for_temp(_temp(case["queries"][0]))         # first use of the sensitivity model
+        if case.get("fire_first"):
+            Calculator().fire(Shot(Weapon(Distance.Inch(2)), ammo), Distance.Foot(30), Distance.Foot(10))
+        ammo.mv = _vel(case["v_new"]) if case["v_new"]["bare"] is False else PreferredUnits.velocity(_vel(case["v_new"]))
+        ammo.powder_temp = _temp(dict(case["t_new"], bare=False))
+        v0n, t0n = ammo.mv >> Velocity.MPS, ammo.powder_temp >> Temperature.Celsius
+        ctx.count("restated")
+        for tq in case["queries"]:
+            got = ammo.get_velocity_for_temp(_temp(tq)) >> Velocity.MPS
+            tq_c = lib_c(tq)
+            want = v0n + m * v0n / 15.0 * (tq_c - t0n)
+            ctx.count("linear_queries")
+            if not close(got, want, max(abs(v0n), abs(m * v0n / 15.0) * (abs(tq_c) + abs(t0n) + 300))):
+                ctx.violation("restated.linear-law", f"after re-stating the ammunition to {v0n!r} m/s @ {t0n!r} C: v({tq_c} C) = {got!r}, linear law gives {want!r}", case,
+                              got=got, want=want)
+        got0 = ammo.get_velocity_for_temp(ammo.powder_temp) >> Velocity.MPS
+        if not close(got0, v0n, v0n):
+            ctx.violation("restated.anchor", f"after re-stating: v(stated powder temperature) = {got0!r} != stated {v0n!r}", case)
+        res = Calculator().fire(Shot(Weapon(Distance.Inch(2)), ammo, atmo=Atmo(Distance.Foot(0), pb.Pressure.hPa(1000), Temperature.Celsius(case["air_c"]))),
+                                Distance.Foot(30), Distance.Foot(10))
+        want = v0n + m * v0n / 15.0 * ((Temperature.Celsius(case["air_c"]) >> Temperature.Celsius) - t0n)
+        ctx.count("launches")
+        if not close(res[0].velocity >> Velocity.MPS, want, max(abs(v0n), abs(want))):
+            ctx.violation("restated.launch-speed", f"after re-stating: first row speed {res[0].velocity >> Velocity.MPS!r}, expected {want!r}", case)
+        ctx.case(case, nontrivial=True)
     elif kind == "launch":
         m = case["modifier"]
         air_c = case["air_c"]
@@ -177,7 +204,7 @@ def gen_case(rng):
         t = rng.choice([0.0, 15.0, round(rng.uniform(lo, hi), 2)])
         return {"t_c": t, "unit": rng.choice(TU), "bare": rng.random() < 0.3}
 
-    kind = rng.choice(["off", "linear", "linear", "calibration", "calibration", "calibration", "launch", "launch"])
+    kind = rng.choice(["off", "linear", "linear", "calibration", "calibration", "calibration", "launch", "launch", "restate"])
     case = {"kind": kind, "v0": vel(), "t0": tmp()}
     # a bare baseline and a bare query share the single preferred unit of their dimension
     if kind == "off":
@@ -185,6 +212,11 @@ def gen_case(rng):
     elif kind == "linear":
         case.update(use=True, modifier=rng.choice([0.0, round(rng.uniform(-0.05, 0.05), 5), round(rng.uniform(0, 2), 4)]),
                     queries=[tmp(-80, 90) for _ in range(4)])
+    elif kind == "restate":
+        case["v0"] = vel(300, 1000)
+        case.update(use=True, modifier=round(rng.uniform(-0.04, 0.04), 5), queries=[tmp(-40, 60) for _ in range(3)],
+                    v_new=dict(vel(300, 1000), bare=False), t_new=tmp(-30, 40), fire_first=rng.random() < 0.5,
+                    air_c=round(rng.uniform(-20, 40), 1))
     elif kind == "calibration":
         v0 = case["v0"]["v_mps"]
         dv = rng.choice([-1, 1]) * rng.choice([round(rng.uniform(0.5, 5), 3), round(rng.uniform(5, 120), 2)])
